@@ -77,7 +77,11 @@ def run(rep: common.Report, tier: str, seed: int):
         q = np.array([[rng.uniform(0.1 * Lx, 0.9 * Lx), rng.uniform(0.1 * Ly, 0.9 * Ly), rng.choice([0.0, 0.035, -0.1])] for _ in range(m)],
                      dtype=np.float32)
         x, y, z = q[:, 0].copy(), q[:, 1].copy(), q[:, 2].copy()
-        on = np.asarray(Gon.transform_points(x.copy(), y.copy(), z.copy())).T
+        xa, ya, za = x.copy(), y.copy(), z.copy()
+        on = np.asarray(Gon.transform_points(xa, ya, za)).T
+        if rng.random() < 0.5:
+            # the same float32 arrays once more (a second pass over a matrix the caller keeps): same result
+            on = np.asarray(Gon.transform_points(xa, ya, za)).T
         off = np.asarray(Goff.transform_points(x.copy(), y.copy(), z.copy())).T
         sv = np.asarray(Gon.fwarp(np.column_stack([x, y])), dtype=np.float64)
         # what the file holds (6 decimals, read as float32) and the interpolant there
